@@ -787,6 +787,11 @@ class KernelCpu:
         if arg.pointer:
             if hasattr(arg.atype, "_dtype"):  # it is numerical scalar
                 if hasattr(value, "dtype"):  # nparray
+                    if not value.dtype.isnative:
+                        raise TypeError(
+                            f"Argument `{arg.name}`: arrays in non-native "
+                            "byte order cannot be passed to a kernel"
+                        )
                     slice_first_elem = value[tuple(value.ndim * [slice(0, 1)])]
                     return self.ffi_interface.cast(
                         dtype2ctype(value.dtype) + "*",
